@@ -309,7 +309,7 @@ Definition bin_dispatch (fuel : nat) (op : binop) (lv rv : value) (st : store) (
       end
   end.
 
-Definition un_dispatch (fuel : nat) (op : unop) (v : value) (st : store) (sc : scopes) : res :=
+Definition un_dispatch (fuel : nat) (sx : ty) (op : unop) (v : value) (st : store) (sc : scopes) : res :=
   match op with
   | UReturn => (st, sc, SReturn v)
   | UNot | UUnaryMinus => sig_of_outcome (unop_exec op v) (fun r => (st, sc, SVal r)) st sc
@@ -350,12 +350,21 @@ Definition un_dispatch (fuel : nat) (op : unop) (v : value) (st : store) (sc : s
       end
   | USum =>
       let t := as_type v in
-      if matches t (TFun [] (TTup [TBool; TInt])) then call_def (p_int_sum pre) [v] st sc
-      else if matches t (TFun [] (TTup [TBool; TFloat])) then call_def (p_float_sum pre) [v] st sc
+      let s := sx in
+      let ti := TFun [] (TTup [TBool; TInt]) in
+      let tf := TFun [] (TTup [TBool; TFloat]) in
+      let ts := TFun [] (TTup [TBool; TString]) in
+      let any := matches ti s || matches tf s || matches ts s in
+      let choose := fun c => matches t c && (negb any || matches c s) in
+      if choose ti then call_def (p_int_sum pre) [v] st sc
+      else if choose tf then call_def (p_float_sum pre) [v] st sc
       else call_def (p_string_sum pre) [v] st sc
   | UProduct =>
       let t := as_type v in
-      if matches t (TFun [] (TTup [TBool; TInt])) then call_def (p_int_product pre) [v] st sc
+      let s := sx in
+      let ti := TFun [] (TTup [TBool; TInt]) in
+      let tf := TFun [] (TTup [TBool; TFloat]) in
+      if matches t ti && (matches ti s || negb (matches tf s)) then call_def (p_int_product pre) [v] st sc
       else call_def (p_float_product pre) [v] st sc
   | UAll | UAny | UBitAnd | UBitOr => (st, sc, SPanic)
   end.
@@ -569,7 +578,7 @@ Proof. intros n st sc op l r HA HO. destruct op; try congruence; reflexivity. Qe
 
 Lemma exec_S_IUn : forall n st sc op x,
   E (S n) st sc (IUn op x) =
-  with_val_def (E n) x st sc (fun st sc v => un_dispatch pre (E n) n op v st sc).
+  with_val_def (E n) x st sc (fun st sc v => un_dispatch pre (E n) n (sty x) op v st sc).
 Proof. reflexivity. Qed.
 
 End Unfold.
@@ -1822,10 +1831,10 @@ Proof.
     cbn [scopes_insert]. apply IH.
 Qed.
 
-Lemma un_dispatch_tail : forall fuel op v st s rest,
-  rtail rest (un_dispatch pre ex fuel op v st (s :: rest)).
+Lemma un_dispatch_tail : forall fuel sx op v st s rest,
+  rtail rest (un_dispatch pre ex fuel sx op v st (s :: rest)).
 Proof.
-  intros fuel op v st s rest.
+  intros fuel sx op v st s rest.
   destruct op; unfold un_dispatch; try apply rtail_here;
     try (apply (rtail_scs _ s); apply sig_of_outcome_scs; intros; reflexivity).
   - (* USum *)
